@@ -3,3 +3,6 @@ import DvcData.Model.Merge
 import DvcData.Proofs.AList
 import DvcData.Proofs.Merge
 import DvcData.Props.C19
+import DvcData.Model.Md5
+import DvcData.Model.Hash
+import DvcData.Props.C14
